@@ -84,13 +84,14 @@ static void check_comps(int n, const EL &es) {
     if (!why.empty()) ctx.violation("components_partition", {}, desc, why);
 }
 // rooted labelled trees via Pruefer-free enumeration: parent[i] < i for i>=1 (every rooted tree shape occurs)
-static void check_tree_layout(int n, const vector<int> &parent, CardinalDir dir, bool convex) {
+static void check_tree_layout(int n, const vector<int> &parent, CardinalDir dir, bool convex, int sizes = 0) {
     EL es; for (int i = 1; i < n; i++) es.push_back({parent[i], i});
-    string desc = "symmetricLayout " + gstr(n, es) + mcx::fmt(" root=0 growth=%d convex=%d nodeSep=10 rankSep=50 (nodes 30x30)", (int)dir, convex), why;
+    string desc = "symmetricLayout " + gstr(n, es) + mcx::fmt(" root=0 growth=%d convex=%d nodeSep=10 rankSep=70 (nodes %s)", (int)dir, convex, sizes ? "of mixed sizes: 30x30 / 60x30 / 30x60 by id" : "30x30"), why;
     try {
         string s = tglf(n, es, 0); Graph_SP g = buildGraphFromTglf(s);
+        if (sizes) for (auto &p : g->getNodeLookup()) { int e = p.second->getExternalId(); if (e % 3 == 1) p.second->setDims(60, 30); else if (e % 3 == 2) p.second->setDims(30, 60); }
         Node_SP root; for (auto &p : g->getNodeLookup()) if (p.second->getExternalId() == 0) root = p.second;
-        Tree t(g, root); t.symmetricLayout(dir, 10, 50, convex); ctx.count("transitions");
+        Tree t(g, root); t.symmetricLayout(dir, 10, sizes ? 70 : 50, convex); ctx.count("transitions");
         vector<Avoid::Point> c; vector<pair<double, double>> d; for (auto &p : g->getNodeLookup()) { c.push_back(p.second->getCentre()); d.push_back(p.second->getDimensions()); }
         for (size_t i = 0; i < c.size(); i++) { if (!(c[i].x == c[i].x) || std::isinf(c[i].x) || !(c[i].y == c[i].y)) why = "non-finite coordinate";
             for (size_t j = i + 1; j < c.size(); j++) { double ox = (d[i].first + d[j].first) / 2 - fabs(c[i].x - c[j].x), oy = (d[i].second + d[j].second) / 2 - fabs(c[i].y - c[j].y); if (ox > 1e-6 && oy > 1e-6) why = mcx::fmt("nodes %zu and %zu on top of each other", i, j); } }
@@ -177,7 +178,7 @@ int main(int argc, char **argv) {
         ctx.phase(mcx::fmt("symmetricLayout: rooted trees n=%d (parent[i]<i) x 4 growth directions x ordering", n));
         vector<int> par(n, 0); vector<int> radix(n, 1); for (int i = 1; i < n; i++) radix[i] = i;
         do { if (!ctx.next()) continue; ctx.count("states"); string s; for (int i = 1; i < n; i++) s += mcx::fmt("%d<-%d ", i, par[i]); ctx.sample(s);
-             for (CardinalDir d : {CardinalDir::EAST, CardinalDir::SOUTH, CardinalDir::WEST, CardinalDir::NORTH}) for (bool cv : {true, false}) check_tree_layout(n, par, d, cv);
+             for (CardinalDir d : {CardinalDir::EAST, CardinalDir::SOUTH, CardinalDir::WEST, CardinalDir::NORTH}) for (bool cv : {true, false}) { check_tree_layout(n, par, d, cv); check_tree_layout(n, par, d, cv, 1); }
              ctx.done_case(); } while (mcx::odo_next(par, radix) && !ctx.stopped());
     }
     // every UNLABELLED rooted tree (Beyer-Hedetniemi level sequences, lexicographic successor): the layout sorts the child
@@ -190,7 +191,7 @@ int main(int argc, char **argv) {
             if (ctx.stopped()) break;
             if (ctx.next()) { vector<int> par(n, 0); vector<int> last(n + 1, 0); for (int i = 1; i < n; i++) { par[i] = last[L[i] - 1]; last[L[i]] = i; }
                 ctx.count("states"); string ss; for (int i = 1; i < n; i++) ss += mcx::fmt("%d<-%d ", i, par[i]); ctx.sample(ss, 1);
-                for (CardinalDir d : {CardinalDir::EAST, CardinalDir::SOUTH}) for (bool cv : {true, false}) check_tree_layout(n, par, d, cv);
+                for (CardinalDir d : {CardinalDir::EAST, CardinalDir::SOUTH}) for (bool cv : {true, false}) { check_tree_layout(n, par, d, cv); if (n <= (T ? 13 : 11)) check_tree_layout(n, par, d, cv, 1); }
                 ctx.done_case(); }
             // successor: find last position p with L[p] > 1, then repeat the segment starting at its new parent position
             int p = n - 1; while (p > 0 && L[p] == 1) p--; if (p <= 0) break;
